@@ -1,4 +1,4 @@
-(* C06 — what was false before the repairs (finding F6, fixed by ef4cac9 in the code under test).
+(* C06 — what was false before the repairs (finding F6, fixed by 11f7d86 in the code under test).
    The naming loop used to give step / step-I / step-II ... without looking at the names already taken:
    component steps a, a, a-I of three different workflows were named a, a-I, a-I. *)
 From Coq Require Import String Ascii List Bool Arith NArith.
